@@ -192,7 +192,7 @@ Definition mon_whole (reg : registry) (w : whole_obs) : bool :=
   let cons := consistent_hugr reg (w_h0 w) in
   w_self w &&
   rhugr_b reg (w_h0 w) (w_h1 w) &&                              (* frame + exactly the defined operations, every depth *)
-  implb (hugr_all loaded_op (w_h0 w)) (hugr_all (clean_op reg) (w_h1 w)) &&   (* no resolvable opaque type remains *)
+  implb (hugr_all op_loaded (w_h0 w)) (hugr_all (op_clean reg) (w_h1 w)) &&   (* no resolvable opaque type remains *)
   hugr_eqb (w_h1 w) (w_h2 w) &&                                 (* idempotent *)
   implb cons (match w_doc0 w, w_doc1 w with                     (* the document *)
               | Some a, Some b => same_doc_b reg a b
